@@ -215,6 +215,28 @@ class Replayer:
                                 r = L.lzma_index_append(reg[k], A, 8, (o["n"] >> g) & 1)
                                 if r != 0:
                                     ret = lz.retname(r); break
+                    elif op == "park":
+                        # iterate-some / append-many / iterate-rest (IndexOps!Apply "park")
+                        for _ in range(o["n"]):
+                            assert L.lzma_index_append(reg[k], A, 8, 1) == 0
+                        L.lzma_index_iter_init(C.byref(it), reg[k]); it_slot = k
+                        if L.lzma_index_iter_locate(C.byref(it), big(o["u"])):
+                            raise Mismatch("park_locate", "locate(%d) found nothing" % big(o["u"]))
+                        prev = it.block.number_in_file
+                        for _ in range(o["m"]):
+                            assert L.lzma_index_append(reg[k], A, 8, 1) == 0
+                        cnt = 0; want = s["info"]
+                        while cnt <= want["cnt"] + 1 and not L.lzma_index_iter_next(C.byref(it), j):
+                            cnt += 1
+                            if it.block.number_in_file != prev + 1:
+                                raise Mismatch("park_order", "after Block %d next() returned Block %d (parked at offset %d of %d, then %d appended)" % (
+                                    prev, it.block.number_in_file, big(o["u"]), o["n"], o["m"]))
+                            prev = it.block.number_in_file
+                        if cnt != want["cnt"] or prev != want["b"] or it.stream.number != want["s"]:
+                            raise Mismatch("park_rest", "iterator parked at offset %d of %d Records, %d appended: next() returned %d more "
+                                           "items ending at Block %d, model %d ending at Block %d" % (big(o["u"]), o["n"], o["m"], cnt, prev, want["cnt"], want["b"]))
+                        ret = "END"
+                        last.pop(k, None)      # (no observation is predicted for the grown index in this family)
                     elif op == "dup":
                         if inject and inject.random() < 0.5:
                             nth = inject.randrange(1, 7); cnt = [0]
